@@ -160,6 +160,29 @@ func raceScenarios() []raceScenario {
 			ch, err := leaf.Verify(gx509.VerifyOptions{Roots: p.Roots, DNSName: tlsk.ServerName, CurrentTime: tlsk.Now})
 			return fmt.Sprint(len(ch), err)
 		})})
+	// one pool with STRUCTURE: groups of 3 and of 5 CAs sharing a subject key identifier (the pool's
+	// index slices then have spare capacity), CAs without one, and leaves whose authority key
+	// identifier names a group although the issuer is only found by name. Different leaves are
+	// verified at the same time against the same roots and intermediates.
+	rs = append(rs, raceScenario{name: "one-structured-certpool-concurrent-verify", rounds: 25, sameAsSolo: true,
+		setup: func() interface{} { return structuredPool() },
+		bodies: func() []func(interface{}) interface{} {
+			var bs []func(interface{}) interface{}
+			for i := 0; i < 8; i++ {
+				i := i
+				bs = append(bs, func(st interface{}) interface{} {
+					sp := st.(*poolFixture)
+					out := ""
+					for r := 0; r < 6; r++ {
+						l := sp.leaves[(i+r*3)%len(sp.leaves)]
+						ch, err := l.Verify(gx509.VerifyOptions{Roots: sp.roots, Intermediates: sp.inter, CurrentTime: tlsk.Now, KeyUsages: []gx509.ExtKeyUsage{gx509.ExtKeyUsageAny}})
+						out += fmt.Sprintf("%s:%d:%v;", l.Subject.CommonName, len(ch), err)
+					}
+					return out
+				})
+			}
+			return bs
+		}()})
 	// one server Config serving simultaneous connections, with ticket-key rotation
 	rs = append(rs, raceScenario{name: "one-server-config-many-handshakes+rotation", rounds: 6, sameAsSolo: false,
 		setup: func() interface{} { _, s := gmConfigs(); return s },
@@ -456,6 +479,74 @@ func (l *plainLog) Write(p []byte) (int, error) {
 	time.Sleep(200 * time.Microsecond)
 	l.inside--
 	return len(p), nil
+}
+
+type poolFixture struct {
+	roots, inter *gx509.CertPool
+	leaves       []*gx509.Certificate
+}
+
+// structuredPool builds (deterministically shaped, freshly signed) roots, intermediates and leaves.
+func structuredPool() *poolFixture {
+	al := sm2k.Alphabet()
+	serial := int64(9000)
+	mk := func(cn string, ca bool, key *sm2.PrivateKey, ski, aki []byte, parent *gx509.Certificate, pk *sm2.PrivateKey) *gx509.Certificate {
+		serial++
+		t := &gx509.Certificate{SerialNumber: big.NewInt(serial), Subject: pkix.Name{CommonName: cn}, SignatureAlgorithm: gx509.SM2WithSM3,
+			NotBefore: tlsk.Now.AddDate(-1, 0, 0), NotAfter: tlsk.Now.AddDate(1, 0, 0), SubjectKeyId: ski, AuthorityKeyId: aki}
+		if ca {
+			t.IsCA, t.BasicConstraintsValid, t.KeyUsage = true, true, gx509.KeyUsageCertSign
+		} else {
+			t.KeyUsage = gx509.KeyUsageDigitalSignature
+		}
+		if parent == nil {
+			parent, pk = t, key
+		}
+		der, err := gx509.CreateCertificate(t, parent, &key.PublicKey, pk)
+		if err != nil {
+			panic(err)
+		}
+		c, err := gx509.ParseCertificate(der)
+		if err != nil {
+			panic(err)
+		}
+		return c
+	}
+	f := &poolFixture{roots: gx509.NewCertPool(), inter: gx509.NewCertPool()}
+	S, T := []byte{1, 1, 1, 1}, []byte{2, 2, 2, 2}
+	type ca struct {
+		c *gx509.Certificate
+		k *sm2.PrivateKey
+	}
+	var cas []ca
+	add := func(cn string, ki int, ski []byte) ca {
+		k := al[ki%len(al)].Lib()
+		x := ca{mk(cn, true, k, ski, nil, nil, nil), k}
+		cas = append(cas, x)
+		f.roots.AddCert(x.c)
+		return x
+	}
+	for i := 0; i < 3; i++ {
+		add(fmt.Sprintf("group-S-%d", i), 1+i, S)
+	}
+	for i := 0; i < 5; i++ {
+		add(fmt.Sprintf("group-T-%d", i), 4+i, T)
+	}
+	x, y, z := add("plain-X", 9, nil), add("plain-Y", 10, nil), add("plain-Z", 11, nil)
+	// intermediates: under X and Y, sharing S as their OWN key id as well (second index with spare capacity)
+	ix := ca{mk("inter-X", true, al[12%len(al)].Lib(), S, S, x.c, x.k), al[12%len(al)].Lib()}
+	iy := ca{mk("inter-Y", true, al[13%len(al)].Lib(), S, T, y.c, y.k), al[13%len(al)].Lib()}
+	iz := ca{mk("inter-Z", true, al[14%len(al)].Lib(), S, nil, z.c, z.k), al[14%len(al)].Lib()}
+	for _, i := range []ca{ix, iy, iz} {
+		f.inter.AddCert(i.c)
+	}
+	lk := al[5].Lib()
+	for _, iss := range []ca{x, y, z, cas[0], cas[4], ix, iy, iz} {
+		for ai, aki := range [][]byte{S, T, nil} {
+			f.leaves = append(f.leaves, mk(fmt.Sprintf("leaf-of-%s-aki%d", iss.c.Subject.CommonName, ai), false, lk, nil, aki, iss.c, iss.k))
+		}
+	}
+	return f
 }
 
 func rep(n int, f func(interface{}) interface{}) []func(interface{}) interface{} {
